@@ -3,7 +3,8 @@
 (* the given limits, no root / every single root / (optionally) every pair, up to MaxFail failing visitors.        *)
 EXTENDS Traversal
 
-CONSTANTS MinN, MaxN, Limits, MaxFail, RootSets   \* RootSets: 0 none, 1 singletons, 2 all subsets
+CONSTANTS MinN, MaxN, Limits, MaxFail, RootSets,  \* RootSets: 0 none, 1 singletons, 2 all subsets
+          Exts                                   \* subset of BOOLEAN: whether the caller may cancel the context
 
 Valid(c) ==
   /\ DOMAIN c.deps = 1..c.n
@@ -15,8 +16,8 @@ Valid(c) ==
        [] OTHER -> TRUE
 
 Init == \E N \in MinN..MaxN : \E d \in [1..N -> SUBSET (1..N)] :
-        \E inv \in BOOLEAN : \E lim \in Limits : \E a \in SUBSET (1..N) : \E f \in SUBSET (1..N) :
-          LET c == [n |-> N, deps |-> d, inverse |-> inv, limit |-> lim, after |-> a, fails |-> f] IN
+        \E inv \in BOOLEAN : \E lim \in Limits : \E a \in SUBSET (1..N) : \E f \in SUBSET (1..N) : \E x \in Exts :
+          LET c == [n |-> N, deps |-> d, inverse |-> inv, limit |-> lim, after |-> a, fails |-> f, ext |-> x] IN
           Valid(c) /\ StartsAs(c)
 
 \* deadlock freedom is checked by TLC itself (CHECK_DEADLOCK TRUE): the only state without a successor
